@@ -139,6 +139,9 @@ func (d *dispatcher) ServeHTTP(w http.ResponseWriter, req *http.Request) {
 	location.Scheme = ep.Scheme
 	location.Host = ep.Host
 	location.Path = req.URL.Path
+	// keep the client's spelling of the path: an escaped slash (%2F) is data inside
+	// a segment, re-encoding the decoded path would turn it into a separator
+	location.RawPath = req.URL.RawPath
 	location.RawQuery = query.Encode()
 
 	newReq, cancel := newRequestForProxy(location, req, extraInfo.Hostname)
